@@ -66,7 +66,12 @@ PApiDel(x)    == loc' = [loc EXCEPT ![x] = NoRoute] /\ UNCHANGED <<up, inr, polv
 
 (* policy changes and the matching soft resets (C15).  T = set of targeted neighbours. *)
 PSetImp(pol)   == impPol' = pol /\ UNCHANGED <<up, inr, loc, expPol, inrPol, expEff>>
-PSetExp(pol)   == expPol' = pol /\ UNCHANGED <<up, inr, loc, impPol, inrPol, expEff>>
+(* once the export policy has changed, what a neighbour holds is a mixture (later updates are
+   evaluated under the new policy) until its next full re-advertisement - also when the policy
+   is changed back: expEff becomes "stale", which equals no policy name *)
+PSetExp(pol)   == /\ expPol' = pol
+                  /\ expEff' = [p \in Peers |-> IF pol = expPol THEN expEff[p] ELSE "stale"]
+                  /\ UNCHANGED <<up, inr, loc, impPol, inrPol>>
 PResetIn(T)    == /\ inrPol' = [p \in Peers |-> IF p \in T /\ up[p] THEN [x \in Prefixes |-> impPol] ELSE inrPol[p]]
                   /\ UNCHANGED <<up, inr, loc, impPol, expPol, expEff>>
 PResetOut(T)   == /\ expEff' = [p \in Peers |-> IF p \in T /\ up[p] THEN expPol ELSE expEff[p]]
